@@ -1046,8 +1046,9 @@ func genSQLStackJoin(rng *rand.Rand, id string) *Case {
 	return &Case{
 		ID: id, Kind: "sql/watermarked>mdw>join", Variant: fmt.Sprintf("max_diff a=%ds b=%ds", da, db),
 		Inputs: joinInputs(rng, true),
-		SQL: "WITH wa AS (" + mdwSQL("m.a", da, "x") + "), wb AS (" + mdwSQL("m.b", db, "y") +
-			") SELECT a.t AS t, a.k AS k, a.v AS v, b.w AS w FROM wa a JOIN wb b ON a.k = b.k",
+		SQL: fmt.Sprintf("SELECT a.t AS t, a.k AS k, a.v AS v, b.w AS w FROM "+
+			"(SELECT x.t AS t, x.k AS k, x.v AS v FROM max_diff_watermark(source=>TABLE(m.a), max_diff=>INTERVAL %d SECONDS, time_field=>DESCRIPTOR(t)) x) a JOIN "+
+			"(SELECT y.t AS t, y.k AS k, y.w AS w FROM max_diff_watermark(source=>TABLE(m.b), max_diff=>INTERVAL %d SECONDS, time_field=>DESCRIPTOR(t)) y) b ON a.k = b.k", da, db),
 		Tables: timedJoinTables(),
 		Meta:   Meta{TwoInput: true, KeyTimeIdx: -1, Foreign: true, Pipeline: "watermarked>max_diff_watermark>join"},
 	}
